@@ -155,6 +155,9 @@ Proof.
     destruct (next_range (s_ranges s) (s_pos s)) as [p|].
     2:{ unfold queue_tail. match goal with |- invS (if ?c then _ else _) => destruct c end; eapply invS_same; eauto. }
     assert (HI0 : invS (set_pos s p)) by (eapply invS_same; eauto).
+    destruct (mem_full (set_pos s p)).
+    { destruct quick; [destruct (negb (Nat.eqb (out_val (set_pos s p)) 0)) | destruct (Nat.eqb (out_val (set_pos s p)) 0)];
+        try assumption; eapply invS_same; eauto. }
     destruct (chunk_get pl (set_pos s p) p false) as [s1 r] eqn:Hg.
     destruct (chunk_get_S _ _ _ _ _ HI0 Hg) as (HI1 & Hh & Hb & Hle & Hok).
     destruct quick.
